@@ -320,6 +320,19 @@ class History:
                 self.owner[idx] = "l"
             for _ in range(k):
                 next(it)
+        elif n == "animate":
+            # a caller that made the data itself calls `_animate_` (as draw() does), looks at the data
+            # afterwards and finalizes it
+            idx = self.rec.n_objs
+            data = r._get_render_data_(iteration=True)
+            r.live.clear()
+            self.owner[idx] = "c"
+            try:
+                r._animate_(data, RenderArgs(R), ExactPadding(), int(op[1]), cache_arg(op[2]), sys.stdout)
+            finally:
+                self.rec.by = "c"
+                data.finalize()
+                self.rec.by = "l"
         elif n == "draw":
             animate, cs, loops, cache = op[1] == "1", op[2] == "1", int(op[3]), cache_arg(op[4])
             r.draw(animate=animate, check_size=cs, loops=loops, cache=cache)
@@ -672,6 +685,17 @@ def exhaustive(max_fc):
                             if own != "lib":
                                 ops.append((("cdrop", "0"), None))
                             yield mk_case(fc, ops, "x-reentrant")
+        # `_animate_` called directly on the caller's own data: it must come back un-finalized
+        afaults = [None] + [("render", k, e) for k in range(0, max(fc, 1) + 2)
+                            for e in ("Boom", "StopIteration", "KeyboardInterrupt", "ValueError", "GeneratorExit")] \
+            + [("write", k, e) for k in range(0, 5) for e in ("Boom", "KeyboardInterrupt")]
+        for loops in (1, 2, -1, 0):
+            for cache in ("off", "on"):
+                for f in afaults:
+                    if not draw_terminates(fc, True, loops, cache, f):
+                        continue
+                    yield mk_case(fc, [(("animate", str(loops), cache, str(f[1] + 3 if f else 0)), f),
+                                       (("render",), None)], "x-animate")
         # a finalizer that raises: in every operation that finalizes, then a second finalize from someone else
         yield mk_case(fc, [(("mkData", "1"), None), (("cfin", "0"), hook), (("cfin", "0"), None), (("cdrop", "0"), None)],
                       "x-finhook")
@@ -769,7 +793,7 @@ def random_history(rng):
     try:
         for _ in range(rng.randrange(2, 16)):
             its, datas = sorted(h.it), sorted(h.held)
-            menu = ["render", "str", "draw", "draw", "iterNew", "iterNew", "mkData", "initRender", "initRender",
+            menu = ["render", "str", "draw", "draw", "animate", "iterNew", "iterNew", "mkData", "initRender", "initRender",
                     "handover"]
             if its:
                 menu += ["next"] * 8 + ["close", "seek", "seek", "bump", "dropIter", "set", "set", "nextCb", "nextCb"]
@@ -790,7 +814,13 @@ def random_history(rng):
                 fault = rng.choice([("validate", rng.randrange(2), "RenderSizeOutofRangeError"), ("resolve", 0, rng.choice(GENERIC_EXC)),
                                     ("write", rng.randrange(0, 9), rng.choice(GENERIC_EXC)),
                                     ("cwrite", 0, rng.choice(GENERIC_EXC))])
-            if kind == "handover":
+            if kind == "animate":
+                fault = ("render", rng.randrange(0, max(fc, 1) + 2), rng.choice(ALL_RENDER_EXC)) \
+                    if rng.random() < 0.6 else None
+                if not draw_terminates(fc, True, loops, cache, fault):
+                    fault = ("render", rng.randrange(0, max(fc, 1)), rng.choice(ALL_RENDER_EXC))
+                op = ("animate", str(loops), cache, str(fault[1] + 3 if fault else 0))
+            elif kind == "handover":
                 k = rng.randrange(0, max(fc, 1) + 2)
                 op = ("handover", str(rng.randrange(2)), rng.choice(ARGS_KINDS), str(k), str(rng.randrange(2)))
                 fault = ("render", rng.randrange(0, k), rng.choice(ALL_RENDER_EXC)) if k and rng.random() < 0.4 else None
@@ -850,7 +880,7 @@ class C10(Property):
         "iterator's `_render_data` are gone (model: `dropRefs`)",
         "the caller does not finalize, or hand to a second iterator, data that an open iterator is using",
     ]
-    quick_cases = 30000
+    quick_cases = 31000
     thorough_cases = 150000
 
     def gen_constants(self):
@@ -963,7 +993,7 @@ def check_log(fc, ops, outs):
                 continue
             kind, rest = e[0], e[1:]
             if kind == "c":
-                owner[int(rest)] = "c" if op[0] == "mkData" or (op[0] == "initRender" and op[2] == "0") \
+                owner[int(rest)] = "c" if op[0] in ("mkData", "animate") or (op[0] == "initRender" and op[2] == "0") \
                     or (op[0] == "handover" and op[1] == "0") else "l"
                 fin[int(rest)] = 0
             elif kind == "r":
@@ -1035,7 +1065,7 @@ def check_log(fc, ops, outs):
                                        f"op #{n}: draw() returned/raised ({outcome}) without having finalized its "
                                        f"render data (object {e[1:]}); events: {evs}")
             # data of finished operations: finalized exactly once by now
-            if op[0] in ("render", "str", "draw", "initRender", "handover"):
+            if op[0] in ("render", "str", "draw", "initRender", "handover", "animate"):
                 for e in filter(None, evs.split(",")):
                     if e[0] == "c" and e[1] != "b" and fin.get(int(e[1:]), 0) != 1:
                         return Failure(f"not-finalized/{where}",
